@@ -589,8 +589,15 @@ func (m *Mint) RequestMeltQuote(meltQuoteRequest nut05.PostMeltQuoteBolt11Reques
 	// is not enough: anybody can encode a different invoice with that hash.
 	mintQuote, err := m.db.GetMintQuoteByPaymentHash(bolt11.PaymentHash)
 	isInternal := false
-	if err == nil && mintQuote.PaymentRequest == request {
-		isInternal = true
+	if err == nil {
+		if mintQuote.PaymentRequest == request {
+			isInternal = true
+		}
+	} else if !errors.Is(err, sql.ErrNoRows) {
+		// a failed lookup does not mean that there is no such mint quote:
+		// the mint's own invoice must not be quoted as somebody else's
+		errmsg := fmt.Sprintf("error getting mint quote by payment hash: %v", err)
+		return storage.MeltQuote{}, cashu.BuildCashuError(errmsg, cashu.DBErrCode)
 	}
 
 	isMpp := false
